@@ -390,4 +390,6 @@ def check(ctx):
     from .c11 import check as c11_check
     c11_check(ctx, parts=('cursor', 'store', 'tobytes', 'fill'))
     ctx.floor('drivers analysed', ctx.units.get('drivers', 0), 4)
+    from ..model import check_conf_plumbing
+    check_conf_plumbing(ctx, 'R8-conf-plumbing', 'align')
     ctx.trust(*ASSUMPTIONS)
